@@ -180,14 +180,8 @@ def half_box_sq(bname, L, tb):
     return h2, [z3.Or([h2 * n2[m] == det * det for m in range(3)]), z3.And([h2 * n2[m] <= det * det for m in range(3)])]
 
 def agg(ck, name, queries, TO, found, tag):
-    if not queries:
-        return
-    jobs = [(i, smt.purify(list(a) + list(g))) for i, (a, g) in enumerate(queries)]
-    out = smt.parallel_check(jobs, timeout_s=TO)
-    bad = [i for i in out if out[i][0] != 'unsat']
-    st = 'unsat' if not bad else ('sat' if any(out[i][0] == 'sat' for i in bad) else 'unknown')
-    ck.obligation('%s (%d path queries)' % (name, len(jobs)), st, sum(v[1] for v in out.values()), True, {'model': out[bad[0]][2]} if bad else None)
-    if st == 'sat': found.append((tag, name, out[[i for i in bad if out[i][0] == 'sat'][0]][2]))
+    st, mdl = smt.agg_core(ck, name, queries, TO, purify_all=True)
+    if st == 'sat': found.append((tag, name, mdl))
 
 def init_weights(ck, mod, tier, parsed, found, TO=60):
     """Map_Sphere::Initialize: every listed parent is stored, in order, with weight w_i / sum w and force weight
